@@ -67,10 +67,22 @@ type runDesc struct {
 	// host<->device copy command ends, i.e. the host holds the engine goroutine
 	// right where the driver reports the command complete.
 	CopyEndStallUS int `json:"stall_us_at_copy_command_end,omitempty"`
+	// IDOffset: this many ids are taken from akita's process-wide sequential id
+	// generator before the platform is built (before every repetition).
+	IDOffset int64 `json:"id_generator_offset,omitempty"`
+	// IDCrossDigits d > 0 (with Reps >= 2): before the LAST repetition so many ids
+	// are consumed that the id counter passes 10^d while the chosen kernel
+	// (first or middle one) of that repetition is being dispatched: IDCrossAfter
+	// ids after the kernel's launch command started (work-groups and wavefronts
+	// get their ids in the first few thousand ids of a kernel), clipped to the
+	// kernel's id span as measured in repetition 1.
+	IDCrossDigits int   `json:"id_counter_crosses_10_to_the,omitempty"`
+	IDCrossAfter  int64 `json:"id_cross_point_ids_after_kernel_launch,omitempty"`
+	IDCrossMiddle bool  `json:"id_cross_in_middle_kernel,omitempty"`
 }
 
 func (r runDesc) hostKey() string {
-	return fmt.Sprintf("P%d|cpus=%s|gogc=%s|race=%v|fam=%s|delays=%v|par=%v|reps=%d|copystall=%d", r.GOMAXPROCS, r.CPUs, r.GOGC, r.Race, r.Family, r.Delays, r.Parallel, r.Reps, r.CopyEndStallUS)
+	return fmt.Sprintf("P%d|cpus=%s|gogc=%s|race=%v|fam=%s|delays=%v|par=%v|reps=%d|copystall=%d|idoff=%d|idcross=%d", r.GOMAXPROCS, r.CPUs, r.GOGC, r.Race, r.Family, r.Delays, r.Parallel, r.Reps, r.CopyEndStallUS, r.IDOffset, r.IDCrossDigits)
 }
 
 type childJob struct {
@@ -112,7 +124,10 @@ type childResult struct {
 	Copies         []copyRec        `json:"copies,omitempty"`            // copy hand-off programs: one record per observed blocking copy
 	CopyEnds       map[string]int64 `json:"copy_command_ends,omitempty"` // every copy command of the run, by "<command>|<last reply>"
 	CopyEndStalls  int64            `json:"copy_end_stalls,omitempty"`
-	Contention     map[string]int64 `json:"contention,omitempty"` // per kind (dram, l2): ports metered, requests retrieved, cycles with >= 2 requests retrieved at one port
+	IDStart        int64            `json:"id_counter_at_start"`           // value of akita's id counter when this execution began
+	KernelIDSpans  [][2]int64       `json:"kernel_id_spans,omitempty"`     // id counter at start and end of every kernel launch command
+	IDsConsumed    int64            `json:"ids_consumed_before_execution"` // by the harness (offset / crossing)
+	Contention     map[string]int64 `json:"contention,omitempty"`          // per kind (dram, l2): ports metered, requests retrieved, cycles with >= 2 requests retrieved at one port
 	GoMaxProcs     int              `json:"gomaxprocs_seen"`
 	NumCPU         int              `json:"numcpu_seen"`
 }
@@ -432,16 +447,37 @@ type copyTracer struct {
 	lastEnd   [2]string         // most recent copy command that ended: type, last reply
 	stallUS   int
 	stalls    atomic.Int64
+
+	kernStart map[string]int64 // launch-kernel command task id -> id counter at its start
+	kernSpans [][2]int64
+}
+
+// idNow reads akita's sequential id counter (by taking one id).
+func idNow() int64 {
+	v, err := strconv.ParseInt(sim.GetIDGenerator().Generate(), 10, 64)
+	if err != nil {
+		return -1
+	}
+	return v
+}
+
+func consumeIDs(k int64) {
+	g := sim.GetIDGenerator()
+	for i := int64(0); i < k; i++ {
+		g.Generate()
+	}
 }
 
 func newCopyTracer(stallUS int) *copyTracer {
 	return &copyTracer{cmdWhat: map[string]string{}, reqWhat: map[string]string{}, reqParent: map[string]string{},
-		lastReply: map[string]string{}, ends: map[string]int64{}, stallUS: stallUS}
+		lastReply: map[string]string{}, ends: map[string]int64{}, stallUS: stallUS, kernStart: map[string]int64{}}
 }
 
 func (t *copyTracer) StartTask(task tracing.Task) {
 	t.mu.Lock()
 	switch task.What {
+	case "*driver.LaunchKernelCommand", "*driver.LaunchUnifiedMultiGPUKernelCommand":
+		t.kernStart[task.ID] = idNow()
 	case "*driver.MemCopyD2HCommand", "*driver.MemCopyH2DCommand":
 		t.cmdWhat[task.ID] = task.What
 	case "*protocol.FlushReq", "*protocol.MemCopyD2HReq", "*protocol.MemCopyH2DReq":
@@ -463,6 +499,9 @@ func (t *copyTracer) EndTask(task tracing.Task) {
 		t.lastReply[t.reqParent[task.ID]] = what
 		delete(t.reqWhat, task.ID)
 		delete(t.reqParent, task.ID)
+	} else if st, ok := t.kernStart[task.ID]; ok {
+		t.kernSpans = append(t.kernSpans, [2]int64{st, idNow()})
+		delete(t.kernStart, task.ID)
 	} else if what, ok := t.cmdWhat[task.ID]; ok {
 		isCmd = true
 		last := t.lastReply[task.ID]
@@ -605,8 +644,43 @@ func childMain() {
 	if reps < 1 {
 		reps = 1
 	}
+	var first *childResult
 	for rep := 0; rep < reps; rep++ {
+		consumed := int64(0)
+		if job.Run.IDOffset > 0 {
+			consumeIDs(job.Run.IDOffset)
+			consumed += job.Run.IDOffset
+		}
+		if d := job.Run.IDCrossDigits; d > 0 && rep == reps-1 && first != nil && len(first.KernelIDSpans) > 0 {
+			// make the id counter pass 10^d inside the chosen kernel of this
+			// repetition, using the id consumption measured in repetition 1
+			span := first.KernelIDSpans[0]
+			if job.Run.IDCrossMiddle {
+				span = first.KernelIDSpans[len(first.KernelIDSpans)/2]
+			}
+			relL, relE := span[0]-first.IDStart, span[1]-first.IDStart
+			m := job.Run.IDCrossAfter
+			if m > (relE-relL)/2 {
+				m = (relE - relL) / 2
+			}
+			if m < 1 {
+				m = 1
+			}
+			pow := int64(1)
+			for i := 0; i < d; i++ {
+				pow *= 10
+			}
+			for cur := idNow(); pow-relL-m <= cur+1; pow *= 10 { // already past: next power of ten
+			}
+			k := pow - relL - m - idNow() - 1
+			consumeIDs(k)
+			consumed += k
+		}
 		res := runOnce(job, rep)
+		res.IDsConsumed = consumed
+		if rep == 0 {
+			first = res
+		}
 		res.Rep = rep
 		if rep == 0 {
 			rec.Note("result", res) // written at once: a crash in a later repetition keeps it
@@ -625,6 +699,7 @@ func runOnce(job childJob, pass int) *childResult {
 	before, _ := filepathGlob("akita_sim_*.sqlite3")
 
 	rand.Seed(c.RandSeed) // benchmark inputs come from the global math/rand (randseednop=0)
+	idStart := idNow()
 
 	mon := &monitor{family: r.Family, delays: r.Delays, rng: vlib.NewPRNG(r.DelaySeed).ForkN("c05-delays", pass), sched: 1469598103934665603}
 	driver.VerifSetYieldHook(mon.hook)
@@ -671,6 +746,8 @@ func runOnce(job childJob, pass int) *childResult {
 	}
 	tr.mu.Unlock()
 	res.CopyEndStalls = tr.stalls.Load()
+	res.IDStart = idStart
+	res.KernelIDSpans = tr.kernSpans
 	res.Contention = map[string]int64{}
 	for _, pm := range mon.meters { // the engine goroutine has stopped: Runner.Run() returned
 		res.Contention[pm.kind+"_ports"]++
